@@ -7,6 +7,7 @@ import (
 	"io"
 	"net"
 	"os"
+	"path/filepath"
 	"strings"
 	"sync"
 	"testing"
@@ -31,12 +32,21 @@ type row struct {
 	Verify    bool   `json:"verification_on"`
 	OwnCert   bool   `json:"own_certificate"`
 	NoName    bool   `json:"no_server_name_configured,omitempty"` // client role: caServerName left empty
+	// Interfere (client/mux): after the establisher's first attempt has been refused, another component of the
+	// same process builds - through the proxy's own API - a client TLS configuration from the SAME certificate,
+	// key and CA files with verification switched off (as a cluster connection with a verifying mux client on
+	// one side and a non-verifying TCP client on the other does); the establisher's next reconnect must still
+	// be refused
+	Interfere bool `json:"second_config_same_files_verification_off,omitempty"`
 }
 
 func (r row) name() string {
 	n := fmt.Sprintf("%s/%s/peer=%s/verify=%v/own=%v", r.Role, r.Embedding, r.Peer, r.Verify, r.OwnCert)
 	if r.NoName {
 		n += "/no-server-name"
+	}
+	if r.Interfere {
+		n += "/second-config-verification-off"
 	}
 	return n
 }
@@ -337,6 +347,26 @@ func clientMux(p *pki.PKI, r row, probe *fakes.Probe) outcome {
 		cancel()
 		return outcome{inconclusive: "neither a session nor a peer-side result within the watchdog"}
 	}
+	if r.Interfere && !got && pr != "ping-ok" {
+		other := proxyTLSConfig(p, r, p.Creds["valid-ca1-second"])
+		other.SkipCAVerification = true
+		if _, err := encryption.GetClientTLSConfig(other); err != nil {
+			cancel()
+			return outcome{inconclusive: "could not build the second client configuration: " + err.Error()}
+		}
+		first := pr
+		// the establisher retries with back-off (1 s, 1.5 s, ...): look at its next two attempts
+		for k := 0; k < 2 && !got && pr != "ping-ok"; k++ {
+			select {
+			case <-added:
+				got = true
+			case pr = <-peerRes:
+			case <-time.After(watchdog):
+				cancel()
+				return outcome{detail: "first attempt: " + first, inconclusive: "no further attempt of the establisher within the watchdog"}
+			}
+		}
+	}
 	if got {
 		select {
 		case pr = <-peerRes:
@@ -365,6 +395,13 @@ func TestMatrix(t *testing.T) {
 	}
 	defer os.RemoveAll(dir)
 	p := pki.New(dir)
+	// The host's trust store (read once per process, on first use) holds the FOREIGN CA: "other-ca" is then a
+	// certificate the machine trusts although the configuration names a different CA - a client that lets the
+	// system roots leak into its pool would accept it.
+	empty := filepath.Join(dir, "no-certs")
+	_ = os.Mkdir(empty, 0o755)
+	os.Setenv("SSL_CERT_FILE", p.CA2Path)
+	os.Setenv("SSL_CERT_DIR", empty)
 	probe := fakes.NewProbe(1)
 	var rows []row
 	for _, role := range []string{"server", "client"} {
@@ -380,6 +417,9 @@ func TestMatrix(t *testing.T) {
 						// bad certificate must still not be admitted (valid peers are not judged in these rows)
 						if role == "client" && own && verify && !strings.HasPrefix(peer, "valid") && peer != "server-usage-only-ca1" {
 							rows = append(rows, row{Role: role, Embedding: emb, Peer: peer, Verify: verify, OwnCert: own, NoName: true})
+						}
+						if role == "client" && emb == "mux" && own && verify && (peer == "self-signed" || peer == "other-ca" || peer == "expired-ca1" || peer == "wrong-name-ca1") {
+							rows = append(rows, row{Role: role, Embedding: emb, Peer: peer, Verify: verify, OwnCert: own, Interfere: true})
 						}
 					}
 				}
